@@ -238,6 +238,19 @@ func c13Prop(st *CaseStats, fam int) func(t *rapid.T) {
 					if it.Count() != uint64(len(p.list)) {
 						return fmt.Errorf("iterator Count() = %d, expected %d", it.Count(), len(p.list))
 					}
+					// what an optimiser reads before the first step: the bitmap of live postings, or nothing
+					// (1-hit and empty lists keep none) - never the bitmap of whatever the iterator served before
+					if o, ok := it.(segment.OptimizablePostingsIterator); ok {
+						if abm := o.ActualBitmap(); abm != nil && (p.kind != "general" || !abm.IsEmpty()) {
+							want := roaring.New()
+							for _, x := range p.list {
+								want.Add(uint32(x.Doc))
+							}
+							if !abm.Equals(want) {
+								return fmt.Errorf("ActualBitmap() of the new iterator (list kind %s) is %s, the list's live postings are %s", p.kind, bmString(abm), bmString(want))
+							}
+						}
+					}
 					return nil
 				})
 				if err != nil {
